@@ -66,7 +66,7 @@ theorem modelled_functions_are_source :
     CV.Gen.c17_body_absolutePaths =
       "{ var paths []string for _, f := range p { if f == \"-\" { paths = append(paths, f) continue } abs, err := filepath.Abs(f) if err != nil { return nil, err } f = abs if _, err := os.Stat(f); err != nil { return nil, err } paths = append(paths, f) } return paths, nil }" ∧
     CV.Gen.c17_body_projectName =
-      "{ defer func() { if details.Environment == nil { details.Environment = map[string]string{} } details.Environment[consts.ComposeProjectName] = opts.projectName }() if opts.projectNameImperativelySet { if NormalizeProjectName(opts.projectName) != opts.projectName { return InvalidProjectNameErr(opts.projectName) } return nil } type named struct { Name string `yaml:\"name\"` } // if user did NOT provide a name explicitly, then see if one is defined // in any of the config files var pjNameFromConfigFile string for _, configFile := range details.ConfigFiles { content := configFile.Content if content == nil { d, err := os.ReadFile(configFile.Filename) if err != nil { return fmt.Errorf(\"failed to read file %q: %w\", configFile.Filename, err) } content = d configFile.Content = d } var n named r := bytes.NewReader(content) decoder := yaml.NewDecoder(r) for { err := decoder.Decode(&n) if err != nil && errors.Is(err, io.EOF) { break } if err != nil { break } if n.Name != \"\" { pjNameFromConfigFile = n.Name } } } if !opts.SkipInterpolation { interpolated, err := interp.Interpolate( map[string]interface{}{\"name\": pjNameFromConfigFile}, *opts.Interpolate, ) if err != nil { return err } pjNameFromConfigFile = interpolated[\"name\"].(string) } pjNameFromConfigFile = NormalizeProjectName(pjNameFromConfigFile) if pjNameFromConfigFile != \"\" { opts.projectName = pjNameFromConfigFile } return nil }" ∧
+      "{ defer func() { if details.Environment == nil { details.Environment = map[string]string{} } details.Environment[consts.ComposeProjectName] = opts.projectName }() if opts.projectNameImperativelySet { if NormalizeProjectName(opts.projectName) != opts.projectName { return InvalidProjectNameErr(opts.projectName) } return nil } type named struct { Name string `yaml:\"name\"` } // if user did NOT provide a name explicitly, then see if one is defined // in any of the config files var pjNameFromConfigFile string for _, configFile := range details.ConfigFiles { content := configFile.Content if content == nil { d, err := os.ReadFile(configFile.Filename) if err != nil { return fmt.Errorf(\"failed to read file %q: %w\", configFile.Filename, err) } content = d configFile.Content = d } var n named r := bytes.NewReader(content) decoder := yaml.NewDecoder(r) for { err := decoder.Decode(&n) if err != nil && errors.Is(err, io.EOF) { break } if err != nil { break } if n.Name != \"\" { pjNameFromConfigFile = n.Name } } } if !opts.SkipInterpolation { interpolated, err := interp.Interpolate( map[string]interface{}{\"name\": pjNameFromConfigFile}, *opts.Interpolate, ) if err != nil { return err } pjNameFromConfigFile = interpolated[\"name\"].(string) } pjNameFromConfigFile = NormalizeProjectName(pjNameFromConfigFile) if pjNameFromConfigFile != \"\" { opts.projectName = pjNameFromConfigFile } else { opts.projectName = NormalizeProjectName(opts.projectName) } return nil }" ∧
     CV.Gen.c17_body_NormalizeProjectName =
       "{ r := regexp.MustCompile(\"[a-z0-9_-]\") s = strings.ToLower(s) s = strings.Join(r.FindAllString(s, -1), \"\") return strings.TrimLeft(s, \"_-\") }" ∧
     CV.Gen.c17_body_GetEnvFromFile =
